@@ -24,7 +24,7 @@ RULE = ("R-score compositions (1-4 tracks; all 30 keys; 14 meters; plain, dotted
         "per tick plus per-(channel, pitch) on/off alternation in stream order, with the events computed from the description. "
         "VLQ encoder: dense range + neighbourhoods of all powers of two (quick), all 2^28 values (thorough). Non-trivial: a score "
         "with a rest adjacent to a chord, a key/meter change, a leading rest with a MIDI instrument, a tempo change or repeat > 0."
-        ' Also: values given as 288/k ticks outside the vocabulary, track names of 120-300 characters, enharmonic twin and repeated bars, tracks sharing one instrument object, a second write of the same objects must give identical bytes, and sounding entries whose value (300 .. 2000) rounds to 0 or 1 tick; tempo and repeat count given by keyword or left to the documented defaults (120 bpm, written once); a track without bars among the others, chords that are not in ascending order (after item assignment), entries held in a user subclass of NoteContainer and instruments of a user subclass of MidiInstrument.')
+        ' Also: values given as 288/k ticks outside the vocabulary, track names of 120-300 characters, enharmonic twin and repeated bars, tracks sharing one instrument object, a second write of the same objects must give identical bytes, and sounding entries whose value (300 .. 2000) rounds to 0 or 1 tick; tempo and repeat count given by keyword or left to the documented defaults (120 bpm, written once); a track without bars among the others, chords that are not in ascending order (after item assignment), entries held in a user subclass of NoteContainer and instruments of a user subclass of MidiInstrument. Bars holding one entry (rest, empty container or note of value 1, 2, 4 or the beat unit) in every meter, written once and repeated; the reader decodes running status.')
 ASSUMPTIONS = ["values whose exact tick length is x.5 are not generated (rounding would depend on float artefacts)",
                "order of events inside one tick is not prescribed beyond: instrument events before the first note-on, and per "
                "(channel, pitch) strict on/off alternation", "track names are ASCII; the tick of the track-name event is not compared"]
